@@ -97,6 +97,15 @@ PROPS = {
                            'syntactic and name-based. ') + LEDGER_NOTE,
             'not_decided': ['delta <= 1e10 with a regulariser (tau has no positive lower bound)', 'recorded best objective never increases (follows from C04, not re-proved here)',
                             'number of interpolation points between 2 and the maximum']},
+    'C20': {'bundles': ['jsonrt'], 'level': 'proof',
+            'level_text': 'Field-wise: to_dict writes exactly the 12 fields, each with the documented encoding (contract on the real body); from_dict decodes each key into the '
+                          'field of the same name through the real constructor (call conformance, parameter order); 24 round-trip lemmas DEC_f(json(ENC_f(v))) == norm_f(v) over '
+                          'the library axioms, for replace_nan on and off; replace_nan_with_none by structural induction on its real body; every non-table value is plain / strict JSON.',
+            'level_note': 'Domain J: values are terms over uninterpreted library symbols; the round-trip axioms of tolist / np.array(dtype=) / float / int / str / json / pandas are ASSUMED '
+                          '(A-lib) and differentially tested in the thorough tier. "Diagnostic table exactly" is read as: same columns and cell values in order; index labels become strings '
+                          '(JSON object keys). str() equality is a consequence of field-wise equality because __str__ reads only those fields (and formats them with %-operators) — not a separate '
+                          'obligation. Without NaN replacement a NaN objective travels as the non-strict literal NaN.',
+            'not_decided': ['str(original) == str(reloaded) as its own obligation', 'pandas / json axioms (assumed)']},
     'C10': {'bundles': ['ledger', 'radii'], 'level': 'proof',
             'level_text': 'One obligation per exit site: MAXFUN flag implies nf == maxfun, the max-restarts message implies that many runs, '
                           'nruns == restarts + 1 via a ghost restart counter checked at every break/continue/return of solve_main and solve.',
